@@ -174,6 +174,8 @@ def run_tlc(ctx, family, module, cfg, workers=None, env=None, timeout=600, extra
     if heap:
         cmd.append("-Xmx" + heap)
     cmd.append("-Xss64m")
+    if not heap:
+        cmd.append("-Xmx8g")
     if deque:
         cmd.append("-Dtlc2.tool.queue.IStateQueue=StateDeque")
     for o in javaopts or []:
